@@ -94,15 +94,30 @@ pub struct HostileStun {
     pub tlvs: Vec<(u16, u16, Hex)>,
     /// difference between the declared message length and the real attribute bytes
     pub len_delta: i8,
+    /// 1 / 2: a well-formed 260-byte SOFTWARE attribute after / before the list, so that the
+    /// message length exceeds 255 and a magic-cookie message is identified as STUN (shorter ones
+    /// fall into the matcher's listed shadowing divergence and never reach the attribute walk)
+    #[serde(default)]
+    pub big: u8,
 }
 
 impl HostileStun {
     pub fn bytes(&self) -> Vec<u8> {
         let mut ab = Vec::new();
+        let pad = |ab: &mut Vec<u8>| {
+            ab.extend_from_slice(&[0x80, 0x22, 0x01, 0x04]);
+            ab.extend(std::iter::repeat(b'x').take(260));
+        };
+        if self.big == 2 {
+            pad(&mut ab);
+        }
         for (t, l, v) in &self.tlvs {
             ab.extend_from_slice(&t.to_be_bytes());
             ab.extend_from_slice(&l.to_be_bytes());
             ab.extend_from_slice(v);
+        }
+        if self.big == 1 {
+            pad(&mut ab);
         }
         let mut v = Vec::new();
         v.extend_from_slice(&self.mtype.to_be_bytes());
@@ -125,17 +140,19 @@ pub fn hostile_stun() -> impl Strategy<Value = HostileStun> {
         any::<[u8; 16]>(),
         vec(
             (
-                prop_oneof![2 => Just(1u16), 2 => Just(3u16), 1 => Just(0x8022u16), 1 => any::<u16>()],
+                prop_oneof![3 => Just(1u16), 2 => Just(3u16), 1 => Just(0x8022u16), 1 => Just(0x0020u16), 1 => any::<u16>()],
                 prop_oneof![3 => 0u16..=24, 1 => prop::sample::select(vec![0xffffu16, 0x8000, 0x0100, 255, 256])],
                 vec(any::<u8>(), 0..28),
             ),
             0..5,
         ),
         prop_oneof![3 => Just(0i8), 1 => -8i8..=8],
+        prop_oneof![2 => Just(0u8), 2 => Just(1u8), 2 => Just(2u8)],
     )
-        .prop_map(|(mtype, magic, id, tl, len_delta)| HostileStun {
+        .prop_map(|(mtype, magic, id, tl, len_delta, big)| HostileStun {
             mtype,
-            magic,
+            magic: magic || big != 0,
+            big,
             id,
             tlvs: tl
                 .into_iter()
@@ -143,6 +160,10 @@ pub fn hostile_stun() -> impl Strategy<Value = HostileStun> {
                     // half of the time make the value as long as declared (well-formed TLV of any type)
                     if (l as usize) <= 28 && v.len() % 2 == 0 {
                         v.resize(l as usize, 0x01);
+                    }
+                    // address attributes: a plausible family byte (0x01 / 0x02) half of the time
+                    if (t == 1 || t == 0x20) && v.len() >= 2 && v[0] % 2 == 0 {
+                        v[1] = 1 + (v[0] / 2) % 2;
                     }
                     (t, l, Hex(v))
                 })
